@@ -385,8 +385,13 @@ class DigitalWaveform(Generic[TDigitalState]):
         else:
             raise invalid_arg_type("input array", "one or two-dimensional array or sequence", array)
 
+        data = _np_asarray(array, dtype, copy=copy)
+        if copy:
+            # np.asarray(copy=True) keeps a Fortran-ordered layout; the waveform's own buffer must
+            # be C-ordered so that growing it with ndarray.resize keeps the samples in place.
+            data = np.ascontiguousarray(data)
         return cls(
-            data=_np_asarray(array, dtype, copy=copy),
+            data=data,
             start_index=start_index,
             sample_count=sample_count,
             signal_count=signal_count,
@@ -1047,6 +1052,10 @@ class DigitalWaveform(Generic[TDigitalState]):
                 self._data_1d.resize(value, refcheck=False)
                 self._data = self._data_1d.reshape(len(self._data_1d), 1)
             else:
+                if not self._data.flags.c_contiguous:
+                    # ndarray.resize reinterprets the memory in C order: the samples of a
+                    # Fortran-ordered or strided array would be scrambled.
+                    raise ValueError("cannot resize this array: it is not C-contiguous")
                 self._data.resize((value, self.signal_count), refcheck=False)
 
     @property
